@@ -19,6 +19,7 @@ from observe.pcapng import Observation
 from wire import tlsref as R
 from wire.container import pcapng_bytes
 from wire.l2l4 import mk_flow, tcp_frame, udp_frame, PSH, ACK
+from harness.tlsrun import suites
 
 VICTIMS = [(R.TLS13, 0x1301), (R.TLS13, 0x1303), (R.TLS12, 0xC02F), (R.TLS12, 0xCCA8), (R.TLS12, 0x003C), (R.TLS11, 0x002F),
            (R.TLS10, 0x0035), (R.SSL30, 0x000A), (R.TLS10, 0x0005), (R.TLS12, 0xC0AC)]
@@ -184,6 +185,140 @@ def _one(job):
     return dict(sc=sc, results=results, n=len(faults) + 1, fam=conns[0].suite.family, implicit=conns[0].ver in (R.SSL30, R.TLS10))
 
 
+# ---------------------------------------------------------------------------------------------- QUIC victims
+def quic_hist(gens=False):
+    A = lambda d, g, fr: dict(d=d, pkts=[dict(t="A", d=d, gen=g, frames=fr)])
+    S = lambda i: dict(ft="stream", a=i, b=0)
+    O = lambda k: dict(ft="other", a=k, b=0)
+    h = [dict(d="c", pkts=[dict(t="I", d="c", gen=0, frames=[dict(ft="crypto", a="CH", b=1)])]),
+         dict(d="s", pkts=[dict(t="I", d="s", gen=0, frames=[O("ack"), dict(ft="crypto", a="SH", b=1)]), dict(t="H", d="s", gen=0, frames=[dict(ft="crypto", a="SF", b=1)])]),
+         dict(d="c", pkts=[dict(t="I", d="c", gen=0, frames=[O("ack")]), dict(t="H", d="c", gen=0, frames=[dict(ft="crypto", a="CF", b=1)]), dict(t="A", d="c", gen=0, frames=[S(1)])]),
+         A("s", 0, [O("done"), S(2)]), A("c", 0, [S(3), O("ack")]), A("s", 0, [O("ack"), S(4), S(5)])]
+    if gens:
+        h += [A("c", 1, [S(6)]), A("s", 1, [S(7)]), A("s", 1, [O("ping"), S(8)])]
+    else:
+        h += [A("c", 0, [S(6)]), A("s", 0, [S(7)])]
+    return h
+
+
+def is_sublist(a, b):
+    it = iter(b)
+    return all(any(x == y for y in it) for x in a)
+
+
+def _one_quic(job):
+    suite, seed, quick, gens = job
+    from harness.quicrun import build_conn as build_quic
+    from wire.tlsconn import TlsConn
+    from wire.capture import tcp_capture
+    rng = random.Random(seed)
+    mk = lambda st: dict(suite=st, first="same", split=[1], twoPkts=False, retry=False, zrtt=False, coalesce=True, cfApp=True, hist=quic_hist(gens), out=[], kf=False)
+    try:
+        vq, _ = build_quic(mk(suite), seed, dict(pnlen={"c": 2, "s": 2}, c_cid_len=rng.choice([0, 8]), s_cid_len=8))
+        bq, _ = build_quic(mk("1301"), seed + 1, dict(pnlen={"c": 1, "s": 2}))
+        bt = TlsConn(R.TLS12, suites()[0xC02F], seed=seed + 2)
+        bt.app("c", 30)
+        bt.app("s", 500)
+    except Exception:
+        import traceback
+        return dict(machinery=traceback.format_exc()[-1500:])
+    fv, fb, ft = mk_flow(0, sport=443), mk_flow(1, ipv=6, sport=443), mk_flow(2)
+    vfr = [udp_frame(fv, g.d, g.payload) for g in vq.dgrams]
+    bfr = [udp_frame(fb, g.d, g.payload) for g in bq.dgrams]
+    tfr = [fr for _t, fr in tcp_capture([bt], [ft]).pkts]
+    merged, owner = [], []
+    for i in range(max(len(vfr), len(bfr), len(tfr))):
+        for who, lst in (("v", vfr), ("q", bfr), ("t", tfr)):
+            if i < len(lst):
+                merged.append(lst[i])
+                owner.append((who, i))
+    keylog = vq.keylog + bq.keylog + bt.keylog
+    ts0 = 1_700_000_000_000_000
+    vtruth = [(g.d, g.stream) for g in vq.dgrams if g.stream]
+
+    stamp = {id(fr): ts0 + 1013 * i for i, fr in enumerate(merged)}
+
+    def run(frames, kl, ts_of=None):
+        # every packet keeps the capture time it has in the fault-free capture (a damaged packet inherits its original's)
+        pk = [((ts_of or {}).get(i, stamp.get(id(fr))), fr) for i, fr in enumerate(frames)]
+        res = runner.run_inproc(pcapng_bytes(pk), "\n".join(kl) + "\n")
+        if res.crashed or res.out is None:
+            return None, "run aborted: " + (res.exc or "no output").strip().splitlines()[-1]
+        o = Observation(res.out)
+        proj = dict(v=[(d, pl) for d, _t, pl, _a, _b in o.udp_dgrams(fv.client.ip, fv.client.port, fv.server.ip, 443)],
+                    q=[(d, t, pl) for d, t, pl, _a, _b in o.udp_dgrams(fb.client.ip, fb.client.port, fb.server.ip, 443)],
+                    t=None, problems=o.problems[:2])
+        cv = o.tcp_conv(ft.client.ip, ft.client.port, ft.server.ip, ft.server.port)
+        proj["t"] = None if cv is None else (cv["streams"]["c"], cv["streams"]["s"], [(d, t, p) for d, t, p, _n in cv["segs"]])
+        return proj, None
+    base, err = run(merged, keylog)
+    if err or base["v"] != vtruth or base["problems"]:
+        return dict(results=[dict(fault=dict(kind="none"), bad=["fault-free QUIC run is not exact: " + str(err or base["problems"])])], n=1, suite=suite)
+    vidx = [i for i, (w, _k) in enumerate(owner) if w == "v"]
+    faults = []
+    for i in vidx:
+        faults.append(dict(kind="drop", pkt=i))
+    for i in vidx[1:]:
+        faults.append(dict(kind="cut_before", pkt=i))
+    for i in vidx[:-1]:
+        faults.append(dict(kind="cut_after", pkt=i))
+    nlines = len(vq.keylog)
+    for sset in range(1, 2 ** nlines):
+        faults.append(dict(kind="rmkeys", lines=[j for j in range(nlines) if sset >> j & 1]))
+    faults.append(dict(kind="randsecrets"))
+    for i in vidx:
+        plen = len(vq.dgrams[owner[i][1]].payload)
+        poss = sorted(set(list(range(min(30, plen))) + [plen // 2, plen - 17, plen - 1]) & set(range(plen)))
+        if quick:
+            poss = rng.sample(poss, min(5, len(poss)))
+        for p in poss:
+            faults.append(dict(kind="corrupt", pkt=i, pos=p, op="xor", val=rng.choice([0x01, 0x80, 0x40, 0xFF])))
+        for t in rng.sample([1, 5, 6, 7, 20, 23, max(1, plen - 1)], 2 if quick else 7):
+            if 0 < t < plen:
+                faults.append(dict(kind="truncate", pkt=i, to=t))
+    results = []
+    for f in faults:
+        frames, kl = list(merged), list(keylog)
+        k = f["kind"]
+        if k == "drop":
+            frames = [fr for i, fr in enumerate(frames) if i != f["pkt"]]
+        elif k == "cut_before":
+            frames = [fr for i, fr in enumerate(frames) if not (owner[i][0] == "v" and i < f["pkt"])]
+        elif k == "cut_after":
+            frames = [fr for i, fr in enumerate(frames) if not (owner[i][0] == "v" and i > f["pkt"])]
+        elif k == "rmkeys":
+            kl = [l for j, l in enumerate(kl) if j not in f["lines"]]
+        elif k == "randsecrets":
+            kl = [" ".join(l.split()[:2] + [bytes(rng.getrandbits(8) for _ in range(len(l.split()[2]) // 2)).hex()]) if j < nlines else l for j, l in enumerate(kl)]
+        else:
+            g = vq.dgrams[owner[f["pkt"]][1]]
+            data = bytearray(g.payload)
+            if k == "corrupt":
+                data[f["pos"]] ^= f["val"]
+            else:
+                data = data[:f["to"]]
+            frames[f["pkt"]] = udp_frame(fv, g.d, bytes(data))
+        got, err = run(frames, kl, ts_of={f["pkt"]: stamp[id(merged[f["pkt"]])]} if k in ("corrupt", "truncate") else None)
+        bad = []
+        if err:
+            bad.append(err)
+        else:
+            if got["problems"]:
+                bad.append("output malformed: " + got["problems"][0])
+            if got["q"] != base["q"]:
+                bad.append("QUIC bystander is exported differently from the fault-free run")
+            if got["t"] != base["t"]:
+                bad.append("TLS bystander is exported differently from the fault-free run")
+            if k in ("drop",) and not is_sublist(got["v"], vtruth):
+                bad.append("victim: exported datagrams are not an order-preserving sub-list of the datagrams sent (altered or invented data)")
+            if k in ("cut_before", "cut_after", "rmkeys") and not (is_sublist(got["v"], vtruth)):
+                bad.append("victim: exported datagrams are not a sub-list of the datagrams sent (altered or invented data)")
+            if k == "cut_after" and got["v"] != vtruth[:len(got["v"])]:
+                bad.append("victim: export after a cut is not a prefix of the datagrams sent")
+        results.append(dict(fault=f, bad=bad))
+    return dict(results=results, n=len(faults) + 1, suite=suite, seed=seed)
+
+
 def run(chk):
     quick = chk.tier == "quick"
     rng = random.Random(chk.seed)
@@ -220,6 +355,17 @@ def run(chk):
                 chk.violation(f"fault {f}: {b}", dict(scenario=res["sc"], fault=f, finding=b), kf_key=kf)
         chk.sample(dict(victim=[R.VNAME[res["sc"]["conns"][0]["ver"]], hex(res["sc"]["conns"][0]["suite"])], faults=res["n"] - 1,
                         example=res["results"][min(5, len(res["results"]) - 1)]["fault"]), limit=3)
+    qjobs = [(st, rng.randrange(1 << 30), quick, g) for st in (["1301", "1303"] if quick else ["1301", "1302", "1303", "1304"]) for g in (False, True)]
+    for res in pool_map(_one_quic, qjobs, chunksize=1):
+        if "machinery" in res:
+            raise Exception("QUIC fault enumeration failed in the harness: " + res["machinery"])
+        chk.evaluations += res["n"]
+        for fr in res["results"]:
+            f = fr["fault"]
+            kinds["quic_" + f["kind"]] = kinds.get("quic_" + f["kind"], 0) + 1
+            chk.distinct.add(json.dumps(["quic", res["suite"], res.get("seed"), f], sort_keys=True))
+            for b in fr["bad"]:
+                chk.violation(f"QUIC victim (suite {res['suite']}) fault {f}: {b}", dict(quic_victim=res["suite"], seed=res.get("seed"), fault=f, finding=b))
     chk.extra["faults_by_kind"] = kinds
     chk.rule = ("single faults {drop packet i, cut before/after i, every subset of the victim's key-log lines, random secrets, unknown suite, "
                 "byte corruption / truncation at header, hello-field, body positions of every victim packet, plain HTTP on 443, UDP "
